@@ -72,7 +72,7 @@ var pointOps = []pointOp{
 
 // C15: misuse is loud.
 func C15(c *Ctx) {
-	n := c.N(30000, 1000000)
+	n := c.N(90000, 2000000)
 	for i := int64(0); i < n; i++ {
 		if !c.Mine(i) {
 			continue
